@@ -103,9 +103,10 @@ func c10UpKey(i int) string { return fmt.Sprintf("tlsup%d.sim:443", i) }
 // ---------------------------------------------------------------- scenario
 
 type c10Mutation struct {
-	Kind  string `json:"kind"` // truncate | flip | inflate-record | inflate-both | tail
+	Kind  string `json:"kind"` // truncate | flip | inflate-record | inflate-both | tail | field
 	At    []int  `json:"at,omitempty"`
 	Xor   []int  `json:"xor,omitempty"`
+	How   []int  `json:"how,omitempty"` // field: 0 set to 0, 1 set to 1, 2 minus one, 3 plus one, 4 set to 255, 5 xor
 	Delta int    `json:"delta,omitempty"`
 	Tail  int    `json:"tail_bytes,omitempty"`
 	Then  string `json:"then"` // close | wait
@@ -128,6 +129,10 @@ type c10Client struct {
 }
 
 type c10Scenario struct {
+	// Tasks: fabio's per-connection handlers interleave at statement level inside the ClientHello
+	// handling (SNIProxy.ServeTCP, clientHelloBufferSize, readServerName, clientHelloMsg.unmarshal)
+	Tasks   bool         `json:"statement_level"`
+	Stick   int          `json:"stick,omitempty"`
 	Clients []*c10Client `json:"clients"`
 	Table   string       `json:"table"`
 }
@@ -156,6 +161,11 @@ func c10Gen(g *simcore.Tape, thorough bool) *c10Scenario {
 	}
 	sc.Table = tb.String()
 	nc := g.Range(1, 3)
+	if sc.Tasks = g.Chance(35); sc.Tasks {
+		// two to four connections, each with another name, whose hellos fabio handles at the same time
+		nc = g.Range(2, 4)
+		sc.Stick = simcore.Pick(g, []int{1, 3, 8})
+	}
 	used := map[int]bool{}
 	for j := 0; j < nc; j++ {
 		c := &c10Client{Addr: fmt.Sprintf("192.0.2.%d:%d", 10+j, 5000+100*j)}
@@ -192,13 +202,22 @@ func c10Gen(g *simcore.Tape, thorough bool) *c10Scenario {
 		c.Ciphers = simcore.Pick(g, []string{"default", "cbc-sha", "gcm-chacha", "everything"})
 		switch {
 		case g.Chance(45):
-			m := &c10Mutation{Kind: simcore.Pick(g, []string{"truncate", "flip", "inflate-record", "inflate-both", "tail"})}
+			m := &c10Mutation{Kind: simcore.Pick(g, []string{"truncate", "flip", "inflate-record", "inflate-both", "tail", "field"})}
 			switch m.Kind {
 			case "truncate":
 				m.At = []int{g.Intn(1 << 16)} // reduced modulo the hello length
 			case "flip":
 				for i, n := 0, g.Range(1, 3); i < n; i++ {
 					m.At = append(m.At, g.Intn(1<<16))
+					m.Xor = append(m.Xor, 1+g.Intn(255))
+				}
+			case "field":
+				// damage that lands on the framing: 1-2 bytes of the length / type fields of the hello
+				// (record, handshake, session id, cipher suites, compression, extension block, every
+				// extension header, the server name list) become 0, 1, one less, one more, 255 or anything
+				for i, n := 0, g.Range(1, 2); i < n; i++ {
+					m.At = append(m.At, g.Intn(1<<16)) // reduced modulo the number of such bytes
+					m.How = append(m.How, g.Intn(6))
 					m.Xor = append(m.Xor, 1+g.Intn(255))
 				}
 			case "inflate-record", "inflate-both":
@@ -379,6 +398,19 @@ func runC10(r *simcore.Run) {
 		}
 		e.mu.Unlock()
 	}
+	if sc.Tasks {
+		// the handler tasks (children of the accept-loop task) yield at every statement of the hello
+		// handling, so the driver interleaves the parsing of hellos that are in fabio at the same time
+		e.d.Sim.Activate("tcp:readServerName", "tcp:*clientHelloMsg", "tcp:*SNIProxy", "tcp:clientHelloBufferSize")
+		e.d.Stick = sc.Stick
+		overlap := false
+		e.d.Invariant = func() {
+			if !overlap && e.d.Sim.InFunc("tcp", "readServerName")+e.d.Sim.InFunc("tcp", "*clientHelloMsg") >= 2 {
+				overlap = true
+				r.Probe("hellos_parsed_at_the_same_time")
+			}
+		}
+	}
 	e.serve(listen)
 
 	cert := c10RSACert()
@@ -557,6 +589,30 @@ func (e *c10Env) rawClient(cc *c10Conn, raw net.Conn, cfg *tls.Config) {
 		for i, at := range m.At {
 			b[at%len(b)] ^= byte(m.Xor[i])
 		}
+	case "field":
+		offs := c10FieldOffsets(b)
+		for i, at := range m.At {
+			o := offs[at%len(offs)]
+			v := b[o]
+			switch m.How[i] {
+			case 0:
+				v = 0
+			case 1:
+				v = 1
+			case 2:
+				v--
+			case 3:
+				v++
+			case 4:
+				v = 255
+			default:
+				v ^= byte(m.Xor[i])
+			}
+			if v == b[o] {
+				v ^= 1
+			}
+			b[o] = v
+		}
 	case "inflate-record", "inflate-both":
 		rl := int(b[3])<<8 | int(b[4])
 		nl := min(rl+m.Delta, 16384)
@@ -606,6 +662,46 @@ func (e *c10Env) rawClient(cc *c10Conn, raw net.Conn, cfg *tls.Config) {
 	case <-ended:
 	case <-e.giveup:
 	}
+}
+
+// c10FieldOffsets lists the offsets of the bytes of a genuine ClientHello record (as emitted by
+// crypto/tls, so well-formed) that carry lengths or types: the targets of the "field" damage.
+func c10FieldOffsets(b []byte) []int {
+	offs := []int{3, 4, 6, 7, 8} // record length, handshake length
+	add := func(at, n int) bool {
+		if at+n > len(b) {
+			return false
+		}
+		for i := 0; i < n; i++ {
+			offs = append(offs, at+i)
+		}
+		return true
+	}
+	p := 9 + 2 + 32 // headers, version, random
+	if !add(p, 1) {
+		return offs
+	}
+	p += 1 + int(b[p]) // session id
+	if !add(p, 2) {
+		return offs
+	}
+	p += 2 + (int(b[p])<<8 | int(b[p+1])) // cipher suites
+	if !add(p, 1) {
+		return offs
+	}
+	p += 1 + int(b[p]) // compression methods
+	if !add(p, 2) {
+		return offs
+	}
+	p += 2
+	for add(p, 4) { // extension type and length
+		typ, l := int(b[p])<<8|int(b[p+1]), int(b[p+2])<<8|int(b[p+3])
+		if typ == 0 {
+			add(p+4, 5) // server name list length, name type, name length
+		}
+		p += 4 + l
+	}
+	return offs
 }
 
 func c10Check(r *simcore.Run, sc *c10Scenario, e *c10Env) {
